@@ -967,6 +967,143 @@ def check_C16(cx):
                   "distinct = distinct (options, styled text)" % nstyles)
 
 
+def malformed_families(g, corpus):
+    """generated malformed lines, by family (C10): (family, text)"""
+    r = g.r
+    out = []
+    regs = cases.GPR64 + cases.GPR32 + cases.GPR16 + cases.GPR8 + cases.XMM + cases.YMM
+    names = g.names
+    for _ in range(1):
+        # (a) unknown mnemonics: misspellings of real ones and random words
+        for n in names:
+            k = r.randrange(len(n))
+            out.append(("mnemonic", "%s rax, rbx" % (n[:k] + r.choice("qzkw") + n[k:])))
+            out.append(("mnemonic", "%sx" % n))
+        for w in ["foo", "movv", "mo", "m", "addd rax, 1", "vpaddbb xmm1, xmm2, xmm3", "jmpp 5", "nop12", "nop0", "rett"]:
+            out.append(("mnemonic", w))
+        # (b) misspelt register tokens in each operand position and as base/index
+        bad = ["rbz", "r16", "r8q", "eaz", "xmm16", "ymm16", "mm8", "axx", "sph", "r1b", "rxx", "exx", "ymm1x", "rsp0", "r15dd", "zmm0"]
+        for b in bad:
+            out += [("register", "mov %s, rax" % b), ("register", "mov rax, %s" % b), ("register", "mulx rax, rbx, %s" % b),
+                    ("register", "mov rax, [%s]" % b), ("register", "mov rax, [rbx+%s*2]" % b), ("register", "vpaddd ymm0, ymm1, %s" % b),
+                    ("register", "shld rax, %s, 3" % b), ("register", "vpaddq ymm0, ymm1, [rax+%s*2]" % b)]
+        # (d) operand after an immediate, empty operands
+        for l in ["mov rax, 1, rbx", "push 1, 2", "add rax, 5, rcx", "imul rax, rbx, 3, rcx", "mov , rax", "mov rax,, rbx", "mov rax, rbx,",
+                  "add ,", "shld rax,, 3", "vpaddb ymm1, , ymm3", "mov rax, rbx, rcx, rdx, rsi"]:
+            out.append(("operands", l))
+        # (f) memory expressions
+        for b in ["rax", "r13", "ebx"]:
+            out += [("memory", "mov rax, [%s" % b), ("memory", "mov rax, [%s+rcx*2" % b), ("memory", "lea rax, [%s+rcx*3]" % b),
+                    ("memory", "lea rax, [%s+rcx*16]" % b), ("memory", "lea rax, [%s+5*rcx]" % b), ("memory", "lea rax, [%s+0*rcx]" % b),
+                    ("memory", "lea rax, [%s+2*rsp]" % b), ("memory", "lea rax, [%s+rsp*4]" % b), ("memory", "lea rax, [%s+8*esp]" % b)]
+        out += [("memory", "lea rax, [rsp+rsp]"), ("memory", "lea rax, [esp+esp]"), ("memory", "lea rax, [rsp+*4*r14*4]"),
+                ("memory", "mov [rax],[rbx]"), ("memory", "lea rax, [2*rsp]"), ("memory", "lea rax, [4*rsp+0x10]"), ("memory", "lea rax, [rsp+4*rsp]")]
+    return out
+
+
+def check_C10(cx):
+    thms = ["AL.Properties.C10." + t for t in ["rejected_line_fails_call", "rejected_line_in_program", "reject_nonprintable",
+            "reject_unknown_mnemonic", "reject_unknown_mnemonic_line", "lookup_error_rejects", "reject_unknown_register",
+            "strToReg_unknown", "reject_empty_operand", "reject_unclosed_bracket", "reject_bad_scale", "reject_stack_pointer_index"]] + \
+           ["AL.Properties.C10Table." + t for t in ["formCheck_all", "nonformat_strings", "reject_bad_format", "supported_forms_found"]]
+    info = stage_proofs(cx, "AL.Properties.C10", thms)
+    impl = build_impl(cx)
+    if not (info and impl):
+        return finish(cx, "")
+    g = cases.Gen(cx.seed, info["tables"])
+    r = g.r
+    fams = malformed_families(g, None)
+    # (c) every mnemonic x every operand-kind tuple (0..4 operands over r, v, y, m, i) that is not in the frozen supported list
+    sup = {}
+    undefined = set()
+    txt = open(os.path.join(alv.LEAN, "AL", "Spec", "Supported.lean")).read()
+    for m in re.finditer(r"\(\[[0-9, ]*\] /- (\w+) -/, \[(.*)\]\)", txt[:txt.index("def acceptedButUndefined")]):
+        forms = ["".join(chr(int(x)) for x in f.split(",") if x.strip()) for f in re.findall(r"\[([0-9, ]*)\]", m.group(2))]
+        sup[m.group(1)] = set(forms)
+    for m in re.finditer(r"\(\[[0-9, ]*\] /- (\w+) -/, \[([0-9, ]*)\]\)", txt[txt.index("acceptedButUndefined"):]):
+        undefined.add((m.group(1), "".join(chr(int(x)) for x in m.group(2).split(",") if x.strip())))
+    sample_opd = {"r": ["rax", "ecx", "r9w", "dl"], "v": ["xmm1", "xmm9"], "y": ["ymm2", "ymm12"], "m": ["[rax]", "qword [rbx+8]"],
+                  "i": ["5", "0x1234"]}
+    import itertools
+    kinds = [""] + ["".join(t) for n in (1, 2, 3, 4) for t in itertools.product("rvymi", repeat=n)]
+    nform = 0
+    for name in sorted(sup):
+        for k in kinds:
+            if k in sup[name] or (name, k) in undefined:
+                continue
+            if cx.tier == "quick" and len(k) == 4 and (hash((name, k)) % 8):
+                continue
+            ops = [r.choice(sample_opd[c]) for c in k]
+            fams.append(("form", name + (" " + ", ".join(ops) if ops else "")))
+            nform += 1
+    # (e) a byte above 0x7e at every position of some lines
+    for base in ["mov rax, rbx", "add qword [rsp+0x10], 5", "ret"]:
+        for pos in range(len(base) + 1):
+            for b in (0x7f, 0x80, 0xa0, 0xff):
+                fams.append(("byte", (base[:pos].encode() + bytes([b]) + base[pos:].encode()).decode("latin1")))
+    # every family line alone under all 12 option bytes (T2) ...
+    lines = [(o, t.encode("latin1")) for fam, t in fams for o in (cases.OPTS if cx.tier == "thorough" or fam != "form" else (14, 0))]
+    ops, out = tie_lines(cx, impl, lines, "C10 malformed families (whole per-line pipeline)")
+    nviol = 0
+    accepted = collections.Counter()
+    fam_of = [fam for fam, t in fams for o in (cases.OPTS if cx.tier == "thorough" or fam != "form" else (14, 0))]
+    for (o, t), fam, res in zip(lines, fam_of, out):
+        p = res.split()
+        if p[0] != "1" or p[2] != "-" or p[3] != "-":
+            accepted[fam] += 1
+            if nviol < 6:
+                nviol += 1
+                cx.violations.append({"kind": "accepted-malformed", "family": fam, "opt": o, "line": t.decode("latin1"), "result": res[:120],
+                                      "what": "malformed / unencodable line was not rejected (or bytes were emitted)"})
+    # ... and placed first / middle / last in a program, in all three modes: failure, nothing emitted for it
+    good = [b"mov rax, rbx", b"add rcx, 0x10", b"ret"]
+    hists, meta = [], []
+    pick = r.sample(fams, min(len(fams), 250 if cx.tier == "quick" else 2500))
+    for fam, t in pick:
+        bt = t.encode("latin1")
+        if b"\n" in bt or b"\r" in bt:
+            continue
+        for posn in (0, 1, 3):
+            body = good[:posn] + [bt] + good[posn:]
+            pre = b"\n".join(good[:posn])
+            for mode in ("A", "K", "C"):
+                h = ["N 0 200 cc"]
+                if mode == "K":
+                    h.append("K 0 8")
+                call = (lambda x: "C 0 8 %s 1" % cases.hexs(x)) if mode == "C" else (lambda x: "A 0 %s" % cases.hexs(x))
+                h += [call(b"\n".join(body)), "G 0", "D 0 0 200", "F 0", "N 0 200 cc"]
+                if mode == "K":
+                    h.append("K 0 8")
+                h += [call(pre), "D 0 0 200", "F 0"]
+                hists.append(h)
+                meta.append((fam, t, posn, mode))
+    ops2, out2 = tie_api_mod_lf(cx, impl, hists, "C10 malformed line first/middle/last in a program, three modes")
+    pos = 0
+    for m, h in zip(meta, hists):
+        o = out2[pos:pos + len(h)]
+        pos += len(h)
+        if len(o) < len(h):
+            break
+        k = 1 if m[3] == "K" else 0
+        rc = o[1 + k].split()[0]
+        dump_bad, dump_pre = o[3 + k], o[-2]
+        if (rc != "1" or dump_bad != dump_pre) and nviol < 10:
+            nviol += 1
+            cx.violations.append({"kind": "program-with-malformed-line", "family": m[0], "line": m[1], "position": m[2], "mode": m[3],
+                                  "rc": rc, "buffer_with_line": dump_bad[:80], "buffer_of_preceding_lines_only": dump_pre[:80],
+                                  "what": "call did not fail, or bytes were emitted for/after the malformed line", "history": h})
+    cx.nontrivial.update(lines)
+    cx.cov["samples"] = [list(x) for x in fams[:3]] + [list(fams[-1])]
+    cx.dist = {"families": dict(collections.Counter(f for f, _ in fams)), "operand_kind_tuples_not_in_supported": nform,
+               "accepted_by_family": dict(accepted), "program_placements": len(hists)}
+    return finish(cx, "generated malformed lines: misspelt mnemonics (every table name), misspelt register tokens in every operand position "
+                  "and as base/index, every supported mnemonic x every operand-kind tuple (0..4 operands over r,v,y,m,i) outside the frozen "
+                  "supported list and the recorded finding, operands after an immediate / empty operands, unclosed brackets / bad scales / "
+                  "stack pointer as index, bytes 0x7f/0x80/0xa0/0xff at every position; each alone under option bytes and first/middle/last in a "
+                  "program in plain, fitting and counting mode (must fail and leave the buffer as the preceding lines alone do); "
+                  "distinct = distinct (options, line)")
+
+
 def history_around(ops, idx):
     """the ops of the history that contains op number idx (a history starts at its first N op
     after an F op or at the beginning)"""
@@ -979,7 +1116,7 @@ def history_around(ops, idx):
     return ops[start:end + 1]
 
 
-CHECKS = {"C12": check_C12, "C07": check_C07, "C06": check_C06, "C13": check_C13, "C14": check_C14, "C08": check_C08, "C15": check_C15, "C16": check_C16}
+CHECKS = {"C12": check_C12, "C07": check_C07, "C06": check_C06, "C13": check_C13, "C14": check_C14, "C08": check_C08, "C15": check_C15, "C16": check_C16, "C10": check_C10}
 
 
 def run_check(prop, tier, seed):
